@@ -7,10 +7,13 @@ package httpspec
 // NewStack: the request side is hop-by-hop removal, forwarded, framing repair,
 // Via (with the given name), then the inner group for everything the caller
 // adds; the response side is the inner group, then hop-by-hop removal.
+//@ ghost ivar lastInner() *fifo.Group
 //@ func NewStack
 //@ property C18 C01 C04
-//@ modifies *
-//@ ensures outer != nil && inner != nil && outer != inner
+//@ ghostset lastInner() := inner
+//@ modifies *, lastInner()
+//@ preserves forwarder.HTTPProxyConfig.* forwarder.HTTPProxy.*
+//@ ensures outer != nil && inner != nil && outer != inner && fresh(outer) && fresh(inner)
 //@ ensures len(outer.reqmods) == 5 && outer.reqmods[0] is *header.hopByHopModifier && outer.reqmods[3] is *header.ViaModifier && outer.reqmods[4] is *fifo.Group && outer.reqmods[4].(*fifo.Group) == inner
 //@ ensures len(outer.resmods) == 2 && outer.resmods[0].(*fifo.Group) == inner && outer.resmods[0] is *fifo.Group && outer.resmods[1] is *header.hopByHopModifier
-//@ ensures len(inner.reqmods) == 0 && len(inner.resmods) == 0
+//@ ensures len(inner.reqmods) == 0 && len(inner.resmods) == 0 && cap(inner.reqmods) == 0
